@@ -116,13 +116,14 @@ func OrderedDaemon.cleanupWorker
 func OrderedDaemon.runBackgroundWorker
   requires d != nil && held(d.lock) && d.workers != nil && has(d.workers, name) && d.workers[name] != nil && backgroundWorker != nil
   requires d.wgPerSameShutdownOrder != nil && has(d.wgPerSameShutdownOrder, d.workers[name].shutdownOrder) && d.wgPerSameShutdownOrder[d.workers[name].shutdownOrder] != nil
-  modifies worker.running
+  modifies worker.running, ghost(sync.wgcount)
 
 -- the worker goroutine: handler, then Done on the order's WaitGroup, then cleanup, then running = false
 func OrderedDaemon.runBackgroundWorker$1
   opt thread
   requires d != nil && *d != nil && worker != nil && *worker != nil && shutdownOrderWaitGroup != nil && *shutdownOrderWaitGroup != nil && backgroundWorker != nil && *backgroundWorker != nil && name != nil
   requires unlocked((*d).lock)
+  requires sel(sync.wgcount, *shutdownOrderWaitGroup) >= 1   -- the starter has counted this goroutine (Add before go)
   callback backgroundWorker(ctx)          -- the handler cannot reach the variables this closure captured
   modifies everything
 
